@@ -32,6 +32,13 @@ func (c *ColBool) DecodeColumn(r *Reader, rows int) error {
 	if err := r.ReadFull(dst); err != nil {
 		return errors.Wrap(err, "read full")
 	}
+	// Only 0 and 1 are valid values, any other byte is not a valid Go bool.
+	for i, v := range dst[len(dst)-rows:] {
+		if v != boolTrue && v != boolFalse {
+			*c = (*c)[:len(*c)-rows]
+			return errors.Errorf("[%d]: bad value %d for Bool", i, v)
+		}
+	}
 	return nil
 }
 
